@@ -128,6 +128,9 @@ pub fn run(p: &Params, rep: &mut Report) {
         if !check_all_valid(rep, &h.store, "after-protect", modename, &ctx) {
             continue;
         }
+        if rep.samples.len() < 3 {
+            rep.sample(json!({"mode": modename, "operations": h.ops.len(), "verdicts_after_protect": verdicts(&h.store).map(|v| v.into_iter().map(|(id, text, verdict)| json!([id, text, verdict])).collect::<Vec<_>>()).unwrap_or_default()}));
+        }
         // more annotations, protect again (possibly in another mode)
         if rng.chance(1, 2) {
             let mut g = crate::gen::Gen::new({
